@@ -353,11 +353,16 @@ def aten_all_dim(self: TTensor, dim: int, keepdim: bool = False) -> BOOL:
 
 
 @torch_op("aten::all.dims", trace_only=True)
-def aten_all_dims(self: TTensor, dim: Sequence[int] = (), keepdim: bool = False) -> BOOL:
+def aten_all_dims(
+    self: TTensor, dim: Optional[Sequence[int]] = None, keepdim: bool = False
+) -> BOOL:
     """all.dims(Tensor self, int[]? dim=None, bool keepdim=False) -> Tensor"""
 
-    if not dim:
+    if dim is None:
         return _aten_all_dims_no_dim(self, keepdim)
+    if len(dim) == 0:
+        # An explicit empty list reduces nothing in PyTorch (only dim=None reduces everything)
+        return op.Cast(self, to=BOOL.dtype)
     for d in dim:
         self = aten_all_dim(self, d, keepdim=True)
     if not keepdim:
@@ -487,11 +492,16 @@ def aten_any_dim(self: TTensor, dim: int, keepdim: bool = False) -> BOOL:
 
 
 @torch_op("aten::any.dims", trace_only=True)
-def aten_any_dims(self: TTensor, dim: Sequence[int] = (), keepdim: bool = False) -> BOOL:
+def aten_any_dims(
+    self: TTensor, dim: Optional[Sequence[int]] = None, keepdim: bool = False
+) -> BOOL:
     """any.dims(Tensor self, int[1]? dim=None, bool keepdim=False) -> Tensor"""
 
-    if not dim:
+    if dim is None:
         return _aten_any_dims_no_dim(self, keepdim)
+    if len(dim) == 0:
+        # An explicit empty list reduces nothing in PyTorch (only dim=None reduces everything)
+        return op.Cast(self, to=BOOL.dtype)
     for d in dim:
         self = aten_any_dim(self, d, keepdim=True)
     if not keepdim:
